@@ -7,6 +7,13 @@ import Pywbem.Model.Assoc
 namespace Pywbem.Model.Assoc
 open Pywbem.Proto
 
+/-- decidable equality of model outcomes (for the closed witnesses checked by `decide`) -/
+instance instDecEqExcept {α : Type} [DecidableEq α] : DecidableEq (Except PyExc α)
+  | .ok a, .ok b => if h : a = b then isTrue (by rw [h]) else isFalse (by intro h'; cases h'; exact h rfl)
+  | .error a, .error b => if h : a = b then isTrue (by rw [h]) else isFalse (by intro h'; cases h'; exact h rfl)
+  | .ok _, .error _ => isFalse (by intro h; cases h)
+  | .error _, .ok _ => isFalse (by intro h; cases h)
+
 /-! ### names and paths: equivalence laws -/
 
 theorem ieq_iff {a b : Name} : ieq a b = true ↔ lower a = lower b := by simp [ieq]
